@@ -20,4 +20,23 @@ Next == \/ /\ Len(h) < MaxLen
                 /\ nopen' = IF s.a = "open" THEN nopen + 1 ELSE nopen
         \/ /\ Len(h) = MaxLen /\ PrintT("SCRIPT " \o ToJson(h))
            /\ h' = Append(h, [a |-> "end", p |-> 0, i |-> 0, src |-> [len |-> 0, raiseAt |-> 0], dt |-> 0]) /\ UNCHANGED nopen
+\* Straddle scripts (time in tenths of a second): housekeeping runs shortly before a deadline (end of the linger period after a
+\* disconnect, or end of the lifetime of an idle stream) and again shortly after it, less than a second later; then the client
+\* comes back.  Lifetime and Linger are the configured periods in seconds (0 = not configured: no script).
+CONSTANTS Lifetime, Linger
+Z == [len |-> 0, raiseAt |-> 0]
+St(a, p, i, dt) == [a |-> a, p |-> p, i |-> i, src |-> Z, dt |-> dt]
+OpenSt == [a |-> "open", p |-> 1, i |-> 0, src |-> [len |-> 3, raiseAt |-> 0], dt |-> 0]
+Gaps == {<<4, 8>>, <<2, 5>>, <<7, 9>>, <<1, 2>>}
+\* the second housekeeping step can also be the implicit one that follows another client's request
+Waker == {St("housekeep", 0, 0, 0), [a |-> "open", p |-> 2, i |-> 0, src |-> [len |-> 1, raiseAt |-> 0], dt |-> 0]}
+LingerScripts == IF Linger = 0 THEN {} ELSE
+    {<<OpenSt, St("next", 0, 1, 0), St("disconnect", 1, 0, 0), St("tick", 0, 0, Linger * 10 - g[1]), St("housekeep", 0, 0, 0),
+       St("tick", 0, 0, g[2]), w, St("reconnect", 1, 0, 0), St("next", 0, 1, 0)>> : g \in Gaps, w \in Waker}
+LifetimeScripts == IF Lifetime = 0 THEN {} ELSE
+    {<<OpenSt, St("next", 0, 1, 0), St("tick", 0, 0, Lifetime * 10 - g[1]), St("housekeep", 0, 0, 0),
+       St("tick", 0, 0, g[2]), w, St("next", 0, 1, 0)>> : g \in Gaps, w \in Waker}
+SInit == h = <<>> /\ nopen = 0
+SNext == /\ h = <<>> /\ h' = <<St("end", 0, 0, 0)>> /\ UNCHANGED nopen
+         /\ \A sc \in LingerScripts \cup LifetimeScripts : PrintT("SCRIPT " \o ToJson(sc))
 =============================================================================
